@@ -76,6 +76,8 @@ set_option maxRecDepth 100000 in
     `ticker_cycle` are the ONLY ones.  A new blocking send that closes another cycle breaks this theorem. -/
 theorem only_known_cycle :
     edgeSet.all (fun e => (e.1 == "pfcp.PfcpServer.main" && e.2.1 == "perio.Server.evtCh" && e.2.2 == "perio.Server.Serve") ||
+      -- the other arm of the same select in `post`: released when the periodic server ends
+      (e.1 == "pfcp.PfcpServer.main" && e.2.1 == "perio.Server.done" && e.2.2 == "perio.Server.Serve") ||
       (e.1 == "perio.Server.Serve" && e.2.1 == "perio.PERIOGroup.stopCh" && e.2.2 == "perio.PERIOGroup.newTicker$1") ||
       rankOf e.2.2 < rankOf e.1) = true := by
   decide
